@@ -586,3 +586,91 @@ Section PreCache.
     if cacheable k then comptime_cached_pre c b k
     else let (v, t) := eval b k in (v, t, c).
 End PreCache.
+
+(** * What a whole compile runs: the items of a program and the backend calls each makes at compile time.
+    Transcribed from
+      src/compile/mod.rs:866-893      a top-level line is handed to pre_eval only when the mode is above
+                                      Line (the preceding pushes it consumes are part of the node list)
+      src/compile/binding.rs:486-515  a binding of signature |0.1 that is not a literal is evaluated by
+                                      comptime_node only if `node.is_pure(&self.asm)` - in EVERY mode
+      src/compile/mod.rs:575-585      at the end of a load every function body is handed to pre_eval
+      src/compile/modifier.rs:1880ff  index macros: operands are substituted and compiled, nothing runs
+      src/compile/modifier.rs:2262ff  comptime(...): runs on the compiler's own runtime (explicit)
+    and the two routes that are NOT gated and stay explicit exceptions (open findings):
+      src/compile/modifier.rs:2067ff  code macros run their function on the compiler's backend
+      src/compile/import.rs:150-223   imports read files and write the cache through the backend *)
+Inductive citem :=
+| ILine (ns : list node)          (* a top-level line, with the pushes it consumes *)
+| IConstBind (ns : list node)     (* Name <- words of signature |0.1 *)
+| IFuncBind                       (* any other binding: nothing runs when it is bound *)
+| IIndexMacro                     (* definition / expansion of an index macro (its expansion is compiled as lines) *)
+| IFuncBodies                     (* the pass over all function bodies at the end of a load *)
+| IComptime (ns : list node)      (* explicit comptime(...) *)
+| ICodeMacro (ns : list node)     (* EXCEPTION: a code macro's function *)
+| IImport.                        (* EXCEPTION: an import *)
+
+Definition gated_item (it : citem) : bool :=
+  match it with IComptime _ | ICodeMacro _ | IImport => false | _ => true end.
+Definition item_nodes (it : citem) : list node :=
+  match it with ILine ns | IConstBind ns | IComptime ns | ICodeMacro ns => ns | _ => [] end.
+Definition single_push (ns : list node) : bool := match ns with [Push _] => true | _ => false end.
+Definition is_nil {A} (l : list A) : bool := match l with [] => true | _ => false end.
+
+Section CompileItems.
+  Variable lprim : N -> pinfo.
+  Variable lmod : modk -> purity.
+  Variable asm : list node.
+  Variable fext : list bool.
+  Variable binds : list bkind.
+  Variable big : sval -> bool.
+  Variable sigok : list node -> bool.
+  Variable gfuel : nat.
+
+  (** mod.rs:873 `self.pre_eval_mode > PreEvalMode::Line` *)
+  Definition line_sections (mode : pmode) (ns : list node) : list (list node) :=
+    if mode_rank mode <=? 1 then []
+    else pre_eval_sections lprim lmod asm fext binds big sigok gfuel mode ns.
+  (** binding.rs:494-499 *)
+  Definition const_evaluated (mode : pmode) (ns : list node) : bool :=
+    negb (single_push ns) &&
+    is_min_purity lprim lmod asm fext binds gfuel Pure [] (Run ns) &&
+    evaluated lprim lmod asm fext binds big gfuel mode ns.
+  (** mod.rs:579-584 *)
+  Definition body_sections (mode : pmode) : list (list node) :=
+    flat_map (fun b => pre_eval_sections lprim lmod asm fext binds big sigok gfuel mode (as_slice b)) asm.
+
+  (** does compiling the item evaluate anything at compile time through the gate? (for the tie) *)
+  Definition item_evaluates (mode : pmode) (it : citem) : bool :=
+    match it with
+    | ILine ns => negb (is_nil (line_sections mode ns))
+    | IConstBind ns => const_evaluated mode ns
+    | IFuncBodies => negb (is_nil (body_sections mode))
+    | _ => false end.
+
+  Variable St : Type.
+  Variable psem : N -> St -> option St * list event.
+  Variable msem : modk -> list sig -> St -> strat St.
+  Variable nsem : node -> St -> option St.
+  Variable win : node -> St -> option St.
+  Variable wout : node -> St -> option St -> option St.
+  Variable swsel : list sig -> sig -> bool -> St -> option (nat * St).
+  Variable dynsem : sig -> St -> option St * list event.
+  Variable rfuel : nat.
+  Variable s0 : St.                          (* the scratch runtime's initial state *)
+  Variable import_events : list event.       (* whatever an import does *)
+
+  Definition eval_trace (sec : list node) : list event :=
+    snd (run St psem msem nsem win wout swsel dynsem asm binds rfuel (Run sec) s0).
+
+  (** the backend calls made while the item is compiled *)
+  Definition ctrace (mode : pmode) (it : citem) : list event :=
+    match it with
+    | ILine ns => flat_map eval_trace (line_sections mode ns)
+    | IConstBind ns => if const_evaluated mode ns then eval_trace ns else []
+    | IFuncBind | IIndexMacro => []
+    | IFuncBodies => flat_map eval_trace (body_sections mode)
+    | IComptime ns | ICodeMacro ns => eval_trace ns
+    | IImport => import_events
+    end.
+  Definition compile_trace (mode : pmode) (items : list citem) : list event := flat_map (ctrace mode) items.
+End CompileItems.
